@@ -10,7 +10,7 @@ allocations in every alias mode and compare ALLOC(w), SIZ(w) and the value with 
 from genlib import *
 
 LEAN_MODULES = ["MpirProofs.Props.C04_allocsafe5"]
-THEOREMS = ["Mpir.AllocSafe5." + t for t in ("mpz_import_alloc_safe", "importLimbs_length", "importLimbs_limbs", "mpz_lcm_one_alloc_safe_partial", "lcmOne_refines", "Spec.lcmOne_spec", "mpz_gcd_small_alloc_safe_partial", "gcdOne_refines", "gcdZero_refines", "mpz_lcm_small_alloc_safe_partial", "lcmOne_safe", "mpz_gcd_tail_alloc_safe_partial", "lshift_carry", "stripLow_fits")]
+THEOREMS = ["Mpir.AllocSafe5." + t for t in ("mpz_import_alloc_safe", "importLimbs_length", "importLimbs_limbs", "mpz_lcm_one_alloc_safe_partial", "lcmOne_refines", "Spec.lcmOne_spec", "mpz_gcd_small_alloc_safe_partial", "gcdOne_refines", "gcdZero_refines", "mpz_lcm_small_alloc_safe_partial", "lcmOne_safe", "mpz_gcd_tail_alloc_safe_partial", "lshift_carry", "stripLow_fits", "mpz_gcd_alloc_safe", "gcdGeneral_refines", "gcdTail_refines", "stripLow_spec", "gcd_odd_shift")]
 TRUSTED = ["hand-written size-aware models lean/Mpir/Model/AllocSafeMpz5.lean (mpz/import.c, gcd.c, lcm.c, divexact.c on the memory model of "
            "AllocSafe.lean; TMP_ALLOC_LIMBS (n) = a block of its own that no variable points to; mpn_gcd_1 / mpn_gcd / mpn_divexact = their "
            "contracts: the value, at most min (usize, vsize) resp. exactly nn - dn + 1 limbs stored (C07 / C02)), tied by exact comparison of "
